@@ -128,5 +128,6 @@ class ExcludedCellsTagger(TaggerWithInternalState):
         """
         for active_cell, active_identifier in self._internal_state.yield_active_cells():
             yield from ((active_identifier, occupant_identifier)
-                        for nearby_cell in self._internal_state.cells.nearby_cells(active_cell)
+                        for nearby_cell in sorted(self._internal_state.cells.nearby_cells(active_cell),
+                                                  key=lambda cell: cell.identifier)
                         for occupant_identifier in self._internal_state[nearby_cell])
